@@ -803,7 +803,8 @@ def run_cases(cases, ctx, nworkers=6, default_timeout=10.0, budget_s=None):
             summary["exception"] += 1
             c["verdict"] = "exception"
             if c.get("in_domain", True):
-                fails.append({"site": c["site"], "what": "raised %s: %s" % (r["exc"], r.get("msg")), "input": inp})
+                fails.append({"site": c["site"], "what": "raised %s: %s" % (r["exc"], r.get("msg")),
+                              "input": dict(inp, outcome="raised %s: %s" % (r["exc"], str(r.get("msg"))[:80]))})
             continue
         jr = c["judge"](r["ok"], per.get(i, {}))
         v, what = jr[0], jr[1]
